@@ -102,6 +102,8 @@ class World(BaseWorld):
                     ctx.tick()
                     ctx.log(step=step, op=op)
                     if op['op'] == 'cost':
+                        # the user evaluates the cost function at a point of their own: the object no longer holds a solution
+                        state['last_ok'] = None
                         self.op_cost(pp, spec, system, state, op, step, seed, grid, r_user, masks, ctx, mon)
                         continue
                     if op['op'] == 'post':
@@ -173,6 +175,7 @@ class World(BaseWorld):
                         # exceptions escaping scipy on a divergent iteration are failed solves, not verdicts
                         ctx.log(solve_exception=type(e).__name__)
                         ctx.probe('solve_raised')
+                        state['last_ok'] = None        # a re-used object is left mid-iteration by the failed solve
                         continue
                     state['P'] = P
                     rec = sr.records[-1] if sr.records else None
